@@ -449,6 +449,59 @@ theorem aliased_intersection_counterexample :
 
 example : PureCtor reader := fun _ => rfl
 
+/-- **One parser per component.**  Whatever cache is used while the assertions are built, if its key determines
+    the component (in /repo there is no cache: the degenerate case), every assertion ends up with a parser bound to
+    its own component, in any build order.  The hypothesis is what the binding monitor of the harness checks on
+    the real objects (proxy base element is the assertion itself; no parser / token serves two components). -/
+theorem assertion_parser_is_own (key : String → String → String)
+    (hk : ∀ o t o' t', key o t = key o' t' → o = o') (asserts : List (String × String)) :
+    ∀ p ∈ bindAll key asserts, p.2 = p.1 := by
+  unfold bindAll
+  suffices g : ∀ (st : List (String × String) × List (String × String)),
+      (∀ k o, (k, o) ∈ st.1 → ∀ o' t', key o' t' = k → o' = o) → (∀ p ∈ st.2, p.2 = p.1) →
+      ∀ p ∈ (asserts.foldl (bindOne key) st).2, p.2 = p.1 from
+    g ([], []) (by intro k o h; cases h) (by intro p h; cases h)
+  induction asserts with
+  | nil => intro st _ h2; exact h2
+  | cons a asserts ih =>
+    intro st h1 h2
+    rw [List.foldl_cons]
+    apply ih
+    · intro k o hm o' t' he
+      unfold bindOne at hm
+      cases hl : st.1.lookup (key a.1 a.2) with
+      | some owner => rw [hl] at hm; exact h1 k o hm o' t' he
+      | none =>
+        rw [hl] at hm
+        simp only [List.mem_append, List.mem_singleton, Prod.mk.injEq] at hm
+        rcases hm with hm | ⟨e1, e2⟩
+        · exact h1 k o hm o' t' he
+        · rw [e2]; exact hk o' t' a.1 a.2 (he.trans e1)
+    · intro p hp
+      unfold bindOne at hp
+      cases hl : st.1.lookup (key a.1 a.2) with
+      | some owner =>
+        rw [hl] at hp
+        simp only [List.mem_append, List.mem_singleton] at hp
+        rcases hp with hp | hp
+        · exact h2 p hp
+        · rw [hp]
+          exact (h1 _ owner (lookup_mem _ _ _ hl) a.1 a.2 rfl).symm
+      | none =>
+        rw [hl] at hp
+        simp only [List.mem_append, List.mem_singleton] at hp
+        rcases hp with hp | hp
+        · exact h2 p hp
+        · rw [hp]
+
+/-- **Seed C09-5, the witness** (replayed on the real code: assertion-pair family): a cache keyed by the test text
+    alone binds the second type to the parser of whichever type is built first. -/
+theorem text_keyed_parser_cache_counterexample :
+    bindAll (fun _ t => t) [("A", "@min le @max"), ("B", "@min le @max")] = [("A", "A"), ("B", "A")] ∧
+    bindAll (fun _ t => t) [("B", "@min le @max"), ("A", "@min le @max")] = [("B", "B"), ("A", "B")] ∧
+    bindAll (fun o t => o ++ "|" ++ t) [("A", "@min le @max"), ("B", "@min le @max")] = [("A", "A"), ("B", "B")] := by
+  decide
+
 /-- **C09-F2, the witness**: the per-document test changes its answer when the declaration moves to an
     included document (document 1) while the wildcard stays in document 0 … -/
 theorem defined_per_document_counterexample :
